@@ -286,6 +286,9 @@ def shard_file(path, max_lines=60000, max_bytes=80 << 20):
     return shards
 
 
+SAFE_MODULES = ("OFCodecTrace", "OFParseTrace")      # judges with a constant Safe (TRUE: predicates that apply Enc to a decoded projection are left out)
+
+
 def judge(ctx, module, trace_path, constants="", workers=2, parallel=6, xmx="3g",
           max_lines=60000, timeout=1800, label=None):
     """Judge a recorded trace with spec/<module>.tla (Init over all lines, one Judge
@@ -305,9 +308,24 @@ def judge(ctx, module, trace_path, constants="", workers=2, parallel=6, xmx="3g"
         wd = tempfile.mkdtemp(prefix="judge-", dir=ctx.scratch)
         tf = os.path.join(wd, "trace.ndjson")
         os.symlink(shards[i], tf)
-        cfg = ("SPECIFICATION Spec\nCONSTANTS\n  TraceFile = \"trace.ndjson\"\n" + constants + "\n")
-        r = ctx.tlc(module, cfg, workdir=wd, workers=workers, xmx=xmx, timeout=timeout,
-                    label="%s#%d" % (label or module, i + 1))
+        has_safe = module in SAFE_MODULES
+        cfg = ("SPECIFICATION Spec\nCONSTANTS\n  TraceFile = \"trace.ndjson\"\n" + constants + ("  Safe = FALSE\n" if has_safe else "") + "\n")
+        try:
+            r = ctx.tlc(module, cfg, workdir=wd, workers=workers, xmx=xmx, timeout=timeout,
+                        label="%s#%d" % (label or module, i + 1))
+        except Infra as e:
+            # The judge could not evaluate a predicate that reads the projection of a decoded value field by field (the value the code
+            # returned does not have the shape of any value of its kind).  Judge the shard again with those predicates left out: what the
+            # remaining predicates reject is a sound verdict; if they reject nothing there is no verdict (exit 2).
+            if not has_safe or "TLC error" not in str(e):
+                raise
+            wd = tempfile.mkdtemp(prefix="judge-safe-", dir=ctx.scratch)
+            os.symlink(shards[i], os.path.join(wd, "trace.ndjson"))
+            r = ctx.tlc(module, cfg.replace("Safe = FALSE", "Safe = TRUE"), workdir=wd, workers=workers, xmx=xmx, timeout=timeout,
+                        label="%s#%d[safe]" % (label or module, i + 1))
+            if not any("reject" in rec for rec in r["lines"]):
+                raise
+            log("[%s] %s: a projection could not be read by the specification's encoder; verdict from the remaining predicates" % (ctx.pid, label or module))
         n = count_lines(shards[i])
         if r["distinct"] < 2 * n:
             raise Infra("judge %s shard %d visited %d states for %d lines (expected %d)" %
